@@ -299,8 +299,10 @@ func vEntriesForAlpha(in *VInst, full, focused bool) []VEntry {
 			dt := int64(time.Second)
 			if l.Dt > 0 {
 				dt = int64(l.Dt)
-			} else if l.Dt < 0 {
+			} else if l.Dt == -1 {
 				dt = 0
+			} else if l.Dt < 0 {
+				dt = int64(l.Dt) // a timestamp before the previous entry's
 			}
 			addr := vaddr(id.Id)
 			if l.Addr == "-" {
